@@ -21,8 +21,15 @@ func c10Specs(tier string) []*Spec {
 		pr := probesFor(keys)
 		small := pr[:min(5, len(pr))]
 		a := Alpha{Writes: true, Save: true, Rollback: true, DelTo: true, LVFO: true, Import: true, Reopen: []reopenVar{{0, true, 0}}}
+		oracles := []Oracle{oracleReads(pr), oracleHashes(), oracleProofs(small, false), oracleReach(), oracleExports()}
+		if len(keys[0]) == 0 {
+			// Trees containing the empty key (accepted by iavl, forbidden by the SDK): only export/import fidelity
+			// and hashes are checked - point reads of the empty key through the fast index are outside the alphabet
+			// of the read properties.
+			oracles = []Oracle{oracleHashes(), oracleExports()}
+		}
 		specs = append(specs, &Spec{Weight: wt, ID: "C10", Name: name, Cfg: cfg, Keys: keys, Vals: bs("x", "y"), MaxDepth: depth, MaxMaint: maint,
-			Alphabet: a.Ops, Oracles: []Oracle{oracleReads(pr), oracleHashes(), oracleProofs(small, false), oracleReach(), oracleExports()}})
+			Alphabet: a.Ops, Oracles: oracles})
 	}
 	k3 := bs("a", "ab", "b")
 	if tier == "quick" {
@@ -30,6 +37,7 @@ func c10Specs(tier string) []*Spec {
 		add("nofast/3keys/d5", Cfg{Fast: false}, k3, 5, 2, 4)
 		add("cache1000/3keys/d5", Cfg{Fast: true, Cache: 1000}, k3, 5, 2, 4)
 		add("iv7/3keys/d5", Cfg{Fast: true, IVSet: true, IV: 7}, k3, 5, 2, 4)
+		add("emptykey/d5", defaultCfg, [][]byte{{}, []byte("a"), []byte("b")}, 5, 2, 4)
 		return specs
 	}
 	add("default/3keys/d8", defaultCfg, k3, 8, 2, 30)
@@ -37,6 +45,7 @@ func c10Specs(tier string) []*Spec {
 	add("nofast/3keys/d7", Cfg{Fast: false}, k3, 7, 2, 8)
 	add("cache1000/3keys/d7", Cfg{Fast: true, Cache: 1000}, k3, 7, 2, 8)
 	add("iv7/3keys/d7", Cfg{Fast: true, IVSet: true, IV: 7}, k3, 7, 2, 8)
+	add("emptykey/d6", defaultCfg, [][]byte{{}, []byte("a"), []byte("b")}, 6, 2, 8)
 	return specs
 }
 
